@@ -62,6 +62,8 @@ func c18(w *core.World, r *core.Report) {
 
 	r.Rule("R18.9", "the slot-tag table behind the control keys is read only after it was built", 1)
 	ruleSlotTagTablePublished(w, r)
+	r.Rule("R10.8", "a transaction reduced by the filters is judged (single slot or refused) on what is left of it: the unit is built from the filter's projection, not from the decoded arguments (shared with C10)", 1)
+	ruleUnitFromProjection(w, r)
 	r.Rule("R18.11", "keys that one target node resolved are used: an error is reported only when no node answered", 1)
 	ruleResolvedKeysWin(w, r)
 	r.Rule("R18.10", "the relaxed slot mode (forced slot 0, cross-slot accepted) is selected by 'the target is not a cluster' and nothing narrower", 1)
